@@ -143,89 +143,92 @@ def run_one(path):
     return name, 'ok' if okall else 'FAIL', '; '.join(res)
 
 
-def audit_for(prop, repo='/repo', limit=None):
-    """Self-audit used by the thorough tier: every catalogue mutant that names `prop` and every kept seed of `prop`
-    must be detected on a scratch copy of the current tree, every refactor must stay silent.
-    Entries whose edit anchor no longer matches the current tree are skipped (not failed)."""
+def _audit_item(args):
+    """(kind, path, prop) -> (name, verdict, fired rules) on a scratch copy of the current tree"""
     import subprocess
+    kind, path, prop, repo = args
+    name = os.path.basename(path)[:-5] if kind == 'mutant' else (('refactors/' + os.path.basename(path)) if kind == 'diff' else os.path.basename(path))
+    try:
+        d = scratch_copy(repo)
+        try:
+            if kind == 'mutant':
+                m = json.load(open(path))
+                try:
+                    apply_edit(d, m)
+                except RuntimeError:
+                    return name, 'skipped', []
+            else:
+                diff = path if kind == 'diff' else os.path.join(path, 'patch.diff')
+                r = subprocess.run(['patch', '-p1', '-s', '-f', '-i', diff], cwd=d, capture_output=True, text=True)
+                if r.returncode != 0:
+                    return name, 'skipped', []
+            try:
+                F = scratch_facts(d)
+            except extract.ExtractError:
+                return name, 'skipped', []
+        finally:
+            shutil.rmtree(d, ignore_errors=True)
+        vs = [v for v in violations_for(prop, F) if v['key'] not in _AUDIT_BASE[prop]]
+        return name, 'fired' if vs else 'silent', sorted({v['rule'] for v in vs})
+    except Exception as e:
+        return name, 'crash:' + repr(e)[:200], []
+
+
+_AUDIT_BASE = {}
+
+
+def audit_for(prop, repo='/repo', limit=None, jobs=None):
+    """Self-audit used by the thorough tier: every catalogue mutant that names `prop` and every kept seed of `prop`
+    must be detected on a scratch copy of the current tree, every catalogue refactor and every stored refactoring diff
+    must stay silent.  Entries whose edit anchor no longer matches the current tree are skipped (not failed)."""
+    import multiprocessing
     out = {'mutants_detected': 0, 'mutants_missed': [], 'refactors_silent': 0, 'refactor_alarms': [], 'seeds_detected': 0, 'seeds_missed': [],
            'skipped': [], 'entries': []}
-    files = sorted(glob.glob(os.path.join(VERIF, 'mutants', '*.json')))
-    base = {v['key'] for v in violations_for(prop, Facts.build(extract.extract('default', repo=repo)))}
-    for path in files:
+    _AUDIT_BASE[prop] = {v['key'] for v in violations_for(prop, Facts.build(extract.extract('default', repo=repo)))}
+    items = []
+    meta = {}
+    for path in sorted(glob.glob(os.path.join(VERIF, 'mutants', '*.json'))):
         m = json.load(open(path))
-        name = os.path.basename(path)[:-5]
         is_ref = m.get('kind') == 'refactor'
         if not is_ref and not any(e[0] == prop for e in m.get('expect', [])):
             continue
-        d = scratch_copy(repo)
-        try:
-            try:
-                apply_edit(d, m)
-            except RuntimeError:
-                out['skipped'].append(name)
-                continue
-            try:
-                F = scratch_facts(d)
-            except extract.ExtractError:
-                out['skipped'].append(name)
-                continue
-        finally:
-            shutil.rmtree(d, ignore_errors=True)
-        vs = [v for v in violations_for(prop, F) if v['key'] not in base]
-        if is_ref:
-            if vs:
+        items.append(('mutant', path, prop, repo))
+        meta[os.path.basename(path)[:-5]] = ('refactor' if is_ref else 'mutant', {e[1] for e in m.get('expect', []) if e[0] == prop})
+    for rd in sorted(glob.glob(os.path.join(VERIF, 'refactors', '*.diff'))):
+        items.append(('diff', rd, prop, repo))
+        meta['refactors/' + os.path.basename(rd)] = ('refactor', set())
+    for sd in sorted(glob.glob(os.path.join(VERIF, 'seeded', prop + '-*'))):
+        items.append(('seed', sd, prop, repo))
+        meta[os.path.basename(sd)] = ('seed', set())
+    jobs = jobs or min(12, max(2, (os.cpu_count() or 4) - 2))
+    ctxm = multiprocessing.get_context('fork')
+    with ctxm.Pool(jobs) as pool:
+        results = pool.map(_audit_item, items)
+    for name, verdict, fired in results:
+        kind, want = meta[name]
+        if verdict == 'skipped':
+            out['skipped'].append(name)
+            continue
+        if verdict.startswith('crash'):
+            # a crash of the rule engine on a variant counts against the audit in the stricter direction
+            (out['refactor_alarms'] if kind == 'refactor' else (out['mutants_missed'] if kind == 'mutant' else out['seeds_missed'])).append(name + ' (' + verdict + ')')
+            out['entries'].append(name)
+            continue
+        if kind == 'refactor':
+            if verdict == 'fired':
                 out['refactor_alarms'].append(name)
             else:
                 out['refactors_silent'] += 1
-        else:
-            want = {e[1] for e in m.get('expect', []) if e[0] == prop}
-            if {v['rule'] for v in vs} & want or (not want and vs):
+        elif kind == 'mutant':
+            if verdict == 'fired' and (not want or want == {'*'} or (set(fired) & want)):
                 out['mutants_detected'] += 1
             else:
                 out['mutants_missed'].append(name)
-        out['entries'].append(name)
-    for rd in sorted(glob.glob(os.path.join(VERIF, 'refactors', '*.diff'))):
-        name = 'refactors/' + os.path.basename(rd)
-        d = scratch_copy(repo)
-        try:
-            r = subprocess.run(['patch', '-p1', '-s', '-f', '-i', rd], cwd=d, capture_output=True, text=True)
-            if r.returncode != 0:
-                out['skipped'].append(name)
-                continue
-            try:
-                F = scratch_facts(d)
-            except extract.ExtractError:
-                out['skipped'].append(name)
-                continue
-        finally:
-            shutil.rmtree(d, ignore_errors=True)
-        vs = [v for v in violations_for(prop, F) if v['key'] not in base]
-        if vs:
-            out['refactor_alarms'].append(name)
         else:
-            out['refactors_silent'] += 1
-        out['entries'].append(name)
-    for sd in sorted(glob.glob(os.path.join(VERIF, 'seeded', prop + '-*'))):
-        name = os.path.basename(sd)
-        d = scratch_copy(repo)
-        try:
-            r = subprocess.run(['patch', '-p1', '-s', '-f', '-i', os.path.join(sd, 'patch.diff')], cwd=d, capture_output=True, text=True)
-            if r.returncode != 0:
-                out['skipped'].append(name)
-                continue
-            try:
-                F = scratch_facts(d)
-            except extract.ExtractError:
-                out['skipped'].append(name)
-                continue
-        finally:
-            shutil.rmtree(d, ignore_errors=True)
-        vs = [v for v in violations_for(prop, F) if v['key'] not in base]
-        if vs:
-            out['seeds_detected'] += 1
-        else:
-            out['seeds_missed'].append(name)
+            if verdict == 'fired':
+                out['seeds_detected'] += 1
+            else:
+                out['seeds_missed'].append(name)
         out['entries'].append(name)
     return out
 
